@@ -92,8 +92,43 @@ def op2exp (alias : Int) (f : Store → Nat → Nat → Nat → Except String St
   | .ok s => some [.num (s w)]
 
 /-- mpn-level ops -/
+private def qrq : Option (List Nat × List Nat × Nat) → Option (List Tok)
+  | some (q, r, qh) => some [.vec q, .vec r, natTok qh]
+  | none => none
+
 def handleN : Handler
+  | "mpn_tdiv_qr", [.vec n, .vec d] =>
+      if d.isEmpty then some [.err "div0"] else
+      (mpnTdivQr n d).map (fun (q, r) => [.vec q, .vec r])
+  | "mpn_tdiv_q", [.vec n, .vec d] => (mpnTdivQ n d).map (fun q => [.vec q])
+  | "mpn_divrem", [.vec n, .vec d, .num qxn] => qrq (mpnDivrem n d qxn.toNat)
+  | "mpn_sb_div_qr", [.vec n, .vec d] =>
+      -- limb-level model; `!modelspec` if it ever differed from the quotient/remainder contract
+      if ¬ normalised d ∨ d.length < 3 ∨ n.length < d.length then none else
+      let dn := d.length
+      let (q, arr, qh) := sb_div_qr n d (invert_pi1 (d.getD (dn - 1) 0) (d.getD (dn - 2) 0))
+      let out := [Tok.vec q, .vec (arr.take dn), natTok qh]
+      if some (q, arr.take dn, qh) == mpnDivQr 3 0 n d then some out else some (out ++ [.err "modelspec"])
+  | "mpn_dc_div_qr", [.vec n, .vec d] => qrq (mpnDivQr 6 3 n d)
+  | "mpn_inv_div_qr", [.vec n, .vec d] => qrq (mpnDivQr 6 3 n d)
+  | "mpn_sb_bdiv_q", [.vec n, .vec d] => (mpnSbBdivQ n d).map (fun (q, w) => [.vec q, .vec w])
+  | "mpn_dc_bdiv_qr", [.vec n, .vec d] => qrq (mpnBdivQr n d)
+  | "mpn_divexact", [.vec n, .vec d] => (mpnDivexact n d).map (fun q => [.vec q])
   | _, _ => none
+
+/-- the `divappr_q` functions may return ⌊n/d⌋ or ⌊n/d⌋+1: predicate ops -/
+def pred : PredHandler
+  | op, [.vec n, .vec d], out =>
+      if op = "mpn_sb_divappr_q" ∨ op = "mpn_dc_divappr_q" ∨ op = "mpn_inv_divappr_q" then
+        if ¬ normalised d ∨ n.length < d.length then none else
+        match out with
+        | [.vec q, .num qh] =>
+            if qh < 0 then some (some "negative qh")
+            else if divapprOk n d q qh.toNat then some none
+            else some (some "quotient is neither floor(n/d) nor floor(n/d)+1")
+        | _ => some (some "unexpected output shape")
+      else none
+  | _, _, _ => none
 
 def thrModexact : Nat := 0  -- MODEXACT_1_ODD_THRESHOLD of the pinned build ("always"); the value does not change any answer
 
